@@ -805,6 +805,11 @@ def rule_selector_row_dedup(db: ProgramDB) -> List[Instance]:
                 fixed: Dict[str, bool] = {}
 
                 def atom_of(e, m=m, params=params):
+                    if isinstance(e, ast.Compare) and len(e.ops) == 1 and isinstance(e.ops[0], (ast.In, ast.NotIn)):
+                        u = unparse(e)              # membership in a local collection: a free atom
+                        if u not in atoms:
+                            atoms.append(u)
+                        return u
                     if not isinstance(e, (ast.Name, ast.Attribute, ast.Call, ast.Subscript)):
                         return None
                     u = unparse(e)
